@@ -154,6 +154,16 @@ def main():
         # ------------------------------------------------------------ NetCDF
         for i in range(20 if T == "quick" else 250):
             spec = gen_group(rng, rng.choice([0, 1, 2, 2]), {})
+            if i == 0:
+                # corpus file (independent of the seed): a group re-declares a root dimension, a LATER sibling group (and a group below
+                # the first) use the name - the sibling means the root's declaration, the inner group the nearest one
+                def grp(dims, vars_, subs):
+                    return {"dims": dims, "vars": vars_, "subs": subs, "attrs": {}, "unlimited": None}
+                D0, D1 = DIMNAMES[0], DIMNAMES[1]
+                spec = grp({D0: 4, D1: 3}, [(VARNAMES[0], "i4", [D0], {}, False)], [
+                    (GROUPS[0], grp({D0: 2}, [(VARNAMES[0], "i4", [D0, D1], {}, False)],
+                                    [(GROUPS[2], grp({}, [(VARNAMES[1], "f8", [D0], {}, False)], []))])),
+                    (GROUPS[1], grp({}, [(VARNAMES[1], "i4", [D0], {}, False), (VARNAMES[2], "f4", [D1, D0], {}, False)], []))])
             path = os.path.join(tmp, "f%d.nc" % i)
             values = write_nc(path, spec, rng)
             stats["nc_files"] += 1
